@@ -4,6 +4,6 @@ CONSTANTS
   Blobs = {2, 4, 6, 8}
   Deviations = {"StragglersAfterAck", "RemoveBestEffort"}
   FullConfig = TRUE
-INVARIANTS QuorumAtAck ErrOnlyBelowQuorum Decided ReadsSurvive ExactlyOnce
+INVARIANTS QuorumAtAck ErrOnlyBelowQuorum Decided ReadsSurvive ReadsSurviveLoss ExactlyOnce
 POSTCONDITION TraceAccepted
 CHECK_DEADLOCK FALSE
